@@ -53,8 +53,9 @@ type Commit struct {
 }
 
 type upload struct {
-	repo string
-	data []byte
+	repo       string
+	data       []byte
+	undersized bool // a chunk shorter than the announced minimum was received: it has to be the last one
 }
 
 type Registry struct {
@@ -72,6 +73,7 @@ type Registry struct {
 	ValidateRefs         bool   // a manifest is rejected unless everything it references is present
 	ReadOnly             bool   // every state-changing request is refused (403)
 	DigestHeaderOverride string // when set, manifest GET/HEAD announce this digest instead of the real one
+	MinChunk             int    // announced with every upload session (OCI-Chunk-Min-Length); a chunk that follows a shorter one is refused
 	MaxPutBody           int    // a closing PUT that carries more than this many bytes is refused (413); 0 = no limit
 
 	// Before runs first for every request. A non-zero result replaces the
@@ -390,7 +392,11 @@ func (r *Registry) Do(c *reghttp.Client, ctx context.Context, req *reghttp.Req) 
 			r.nUp++
 			id := "u" + strconv.Itoa(r.nUp)
 			r.uploads[id] = &upload{repo: repo}
-			return reply(202, http.Header{"Location": {"/v2/" + repo + "/blobs/uploads/" + id}, "Range": {"0-0"}, "Docker-Upload-UUID": {id}}, nil)
+			h := http.Header{"Location": {"/v2/" + repo + "/blobs/uploads/" + id}, "Range": {"0-0"}, "Docker-Upload-UUID": {id}}
+			if r.MinChunk > 0 {
+				h.Set("OCI-Chunk-Min-Length", strconv.Itoa(r.MinChunk))
+			}
+			return reply(202, h, nil)
 		case rest != "":
 			up, ok := r.uploads[rest]
 			if !ok || up.repo != repo {
@@ -424,6 +430,10 @@ func (r *Registry) Do(c *reghttp.Client, ctx context.Context, req *reghttp.Req) 
 						return reply(416, hdr(), nil)
 					}
 				}
+				if up.undersized {
+					return reply(400, hdr(), nil) // only the last chunk may be shorter than the minimum
+				}
+				up.undersized = r.MinChunk > 0 && len(chunk) < r.MinChunk
 				up.data = append(up.data, chunk...)
 				return reply(202, hdr(), nil)
 			case "PUT":
